@@ -18,9 +18,7 @@ for _m in pkgutil.iter_modules(__path__):
         LEVEL_TEXT[_m.name] = mod.TEXT
 
 # checks that exist but are not claimed yet (reason shown in MANIFEST not_applicable)
-PENDING = {
-    "C01": "pending: the robust stream still finds the uniq/sort_natural panics (D4, N4, N5) on /repo; their fix is being prepared with the C15 array-filter model",
-}
+PENDING = {}
 for _pid in PENDING:
     PROPS.pop(_pid, None)
     LEVEL_TEXT.pop(_pid, None)
